@@ -602,11 +602,16 @@ fn huge_sources(found: &mut Vec<(String, String, Value)>, notes: &mut Vec<String
             w: u32,
             draws: u32,
             wide: bool,
+            /// a fixed word handed out before `w` (a first word the sampler redraws after): `w` is then the second word
+            before: Option<u32>,
         }
         impl rand::RngCore for FirstWord {
             fn next_u32(&mut self) -> u32 {
                 self.draws = self.draws.saturating_add(1);
-                if self.draws == 1 {
+                let at = if self.before.is_some() { self.draws - 1 } else { self.draws };
+                if let (Some(b), 1) = (self.before, self.draws) {
+                    b
+                } else if at == 1 {
                     self.w
                 } else {
                     // redraws: a fixed scrambled sequence (a constant word could be one the sampler never accepts)
@@ -638,54 +643,82 @@ fn huge_sources(found: &mut Vec<(String, String, Value)>, notes: &mut Vec<String
                 let owned: Option<OneOfCloning<Vec<u32>, u32>> = if flavour == 0 { IntoDistribution::<u32>::into_distribution(v.clone()).ok() } else { None };
                 let borrowed = if flavour == 2 { IntoDistribution::<u32>::into_distribution(&v).ok() } else { None };
                 let chunks = 64u64;
-                let outs = mcx::par_map(chunks as usize, |c| {
-                    let r = mcx::guarded(|| {
-                    let (lo, hi) = ((c as u64) << 26, (c as u64 + 1) << 26);
-                    let mut counts = vec![0u64; n];
-                    let mut redrawn = 0u64;
-                    let mut wide = false;
-                    let mut wrong: Option<String> = None;
-                    for w in lo..hi {
-                        let mut rng = FirstWord { w: w as u32, draws: 0, wide: false };
-                        let r = match (&owned, &borrowed) {
-                            (Some(d), _) => d.sample(&mut rng),
-                            (_, Some(d)) => d.sample(&mut rng),
-                            _ => {
-                                wrong = Some("construction was rejected".into());
-                                break;
+                // one pass over all 2^32 values of the enumerated word; `before`: a fixed first word that is redrawn
+                let pass = |before: Option<u32>| {
+                    let accepted_at: u32 = if before.is_some() { 2 } else { 1 };
+                    let outs = mcx::par_map(chunks as usize, |c| {
+                        let r = mcx::guarded(|| {
+                            let (lo, hi) = ((c as u64) << 26, (c as u64 + 1) << 26);
+                            let mut counts = vec![0u64; n];
+                            let mut redrawn = 0u64;
+                            let mut wide = false;
+                            let mut wrong: Option<String> = None;
+                            let mut first_redrawn: Option<u32> = None;
+                            for w in lo..hi {
+                                let mut rng = FirstWord { w: w as u32, draws: 0, wide: false, before };
+                                let r = match (&owned, &borrowed) {
+                                    (Some(d), _) => d.sample(&mut rng),
+                                    (_, Some(d)) => d.sample(&mut rng),
+                                    _ => {
+                                        wrong = Some("construction was rejected".into());
+                                        break;
+                                    }
+                                };
+                                wide |= rng.wide;
+                                if r as usize >= n {
+                                    wrong = Some(format!("returned {r}, not a member"));
+                                    break;
+                                }
+                                if rng.draws == accepted_at {
+                                    counts[r as usize] += 1;
+                                } else {
+                                    redrawn += 1;
+                                    if first_redrawn.is_none() {
+                                        first_redrawn = Some(w as u32);
+                                    }
+                                }
                             }
-                        };
-                        wide |= rng.wide;
-                        if r as usize >= n {
-                            wrong = Some(format!("returned {r}, not a member"));
-                            break;
+                            (counts, redrawn, wide, wrong, first_redrawn)
+                        });
+                        match r {
+                            Ok(x) => x,
+                            Err(p) => (vec![0u64; n], 0, false, Some(format!("panicked: {p}")), None),
                         }
-                        if rng.draws == 1 {
-                            counts[r as usize] += 1;
-                        } else {
-                            redrawn += 1;
-                        }
-                    }
-                    (counts, redrawn, wide, wrong)
                     });
-                    match r {
-                        Ok(x) => x,
-                        Err(p) => (vec![0u64; n], 0, false, Some(format!("panicked: {p}"))),
+                    let mut counts = vec![0u64; n];
+                    let (mut redrawn, mut wide, mut wrong, mut first_redrawn) = (0u64, false, None, None);
+                    for (c, r, w, p, f) in outs {
+                        for (a, b) in counts.iter_mut().zip(c) {
+                            *a += b;
+                        }
+                        redrawn += r;
+                        wide |= w;
+                        if wrong.is_none() {
+                            wrong = p;
+                        }
+                        if first_redrawn.is_none() {
+                            first_redrawn = f;
+                        }
                     }
-                });
-                let mut counts = vec![0u64; n];
-                let (mut redrawn, mut wide, mut wrong) = (0u64, false, None);
-                for (c, r, w, p) in outs {
-                    for (a, b) in counts.iter_mut().zip(c) {
-                        *a += b;
-                    }
-                    redrawn += r;
-                    wide |= w;
-                    if wrong.is_none() {
-                        wrong = p;
+                    (counts, redrawn, wide, wrong, first_redrawn)
+                };
+                let (mut counts, mut redrawn, mut wide, mut wrong, first_redrawn) = pass(None);
+                let mut which_word = "first";
+                // the redraw is a draw like the first: after a first word that is redrawn, every second word
+                if n == 3 && wrong.is_none() && !wide && counts.iter().min() == counts.iter().max() {
+                    if let Some(w0) = first_redrawn {
+                        n_runs += 1u64 << 32;
+                        let second = pass(Some(w0));
+                        if second.3.is_some() || second.0.iter().min() != second.0.iter().max() {
+                            counts = second.0;
+                            redrawn = second.1;
+                            wide = second.2;
+                            wrong = second.3;
+                            which_word = "second (after a first word that is redrawn)";
+                        }
                     }
                 }
-                let label = format!("{} on {n} members, every 32-bit first word", FLAVOURS[flavour]);
+                let label = format!("{} on {n} members, every 32-bit {which_word} word", FLAVOURS[flavour]);
                 if let Some(p) = wrong {
                     report(format!("choice/{flavour}/words/result"), format!("{label}: {p}"), json!({"check":"C18","scenario":"huge","flavour":flavour,"n":n.to_string()}));
                 } else if wide {
@@ -703,7 +736,7 @@ fn huge_sources(found: &mut Vec<(String, String, Value)>, notes: &mut Vec<String
     n_runs
 }
 fn huge_bound() -> Value {
-    json!("zero-sized members: 2^32-1, 2^32, 2^32+1, 2^32+2, 2^33, 3*2^32, usize::MAX (construction, member count, one sample); one-byte members: 2^32 and 2^32+2 (exact value law 1/2, 1/2 on the grid of two cells); fine grids enumerated word by word (one draw per sample): 2^24+2^23 members x 1 cell, 3*2^20 x 16, 3*2^22 x 4, 10^6 x 17, 65537 x 257, 1009 x 16661 cells per member - every member returned for exactly its share of the words (owning and cloning flavours); all 2^32 first words for 3 and 1009 members (thorough: 7, 65537, 1000003 too): the words accepted without a redraw are shared equally; owning, borrowing and cloning flavours")
+    json!("zero-sized members: 2^32-1, 2^32, 2^32+1, 2^32+2, 2^33, 3*2^32, usize::MAX (construction, member count, one sample); one-byte members: 2^32 and 2^32+2 (exact value law 1/2, 1/2 on the grid of two cells); fine grids enumerated word by word (one draw per sample): 2^24+2^23 members x 1 cell, 3*2^20 x 16, 3*2^22 x 4, 10^6 x 17, 65537 x 257, 1009 x 16661 cells per member - every member returned for exactly its share of the words (owning and cloning flavours); all 2^32 first words for 3 and 1009 members (thorough: 7, 65537, 1000003 too): the words accepted without a redraw are shared equally, and so are the second words after a first word that is redrawn (3 members); owning, borrowing and cloning flavours")
 }
 
 /// collection generators: exactly `size` elements, element i is the i-th product
